@@ -34,6 +34,57 @@ def run(ctx):
     ctx.rule("C16.R7", "K3", "(= C10.R2) a reload merges the sources afresh: the raw_env exports of the outgoing configuration are undone before the configuration (incl. GUNICORN_CMD_ARGS) is re-read, and a new Config is built")
     from .c10 import env_reset_before_reload
     env_reset_before_reload(ctx, "C16.R7")
+    ctx.rule("C16.R8", "K3/K8", "the Paste server runner keeps the order of authority: defaults it derives from the Paste ini are set before the gunicorn configuration file is loaded, "
+             "the [server:main] options (its command line) after; nothing derived is smuggled into those options")
+    r8(ctx)
+
+
+def r8(ctx):
+    repo = ctx.repo
+    q = "gunicorn.app.pasterapp.serve"
+    if not repo.has_func(q):
+        ctx.note("gunicorn.app.pasterapp.serve not present")
+        return
+    f = ctx.fn(repo.func(q))
+    LC = f.node.args.kwarg.arg if f.node.args.kwarg else None
+    ctx.need(LC, "C16.R8: serve() has no **local_conf")
+    inner = [n for n in ast.walk(f.node) if isinstance(n, ast.FunctionDef) and n.name == "load_config" and n is not f.node]
+    ctx.need(len(inner) == 1, "C16.R8: the runner's load_config not found in serve()")
+    lc = inner[0]
+    # values the user gave in [server:main]: locals popped / read from local_conf
+    own = set()
+    for x in walk_own(f.node):
+        if isinstance(x, ast.Assign) and len(x.targets) == 1 and isinstance(x.targets[0], ast.Name) and isinstance(x.value, ast.Call) and isinstance(x.value.func, ast.Attribute) \
+                and x.value.func.attr in ("pop", "get") and isinstance(x.value.func.value, ast.Name) and x.value.func.value.id == LC:
+            own.add(x.targets[0].id)
+    n = 0
+    for x in ast.walk(f.node):
+        val = None
+        if isinstance(x, ast.Assign) and any(isinstance(t, ast.Subscript) and isinstance(t.value, ast.Name) and t.value.id == LC for t in x.targets):
+            val = x.value
+        elif isinstance(x, ast.Call) and isinstance(x.func, ast.Attribute) and x.func.attr in ("setdefault", "update", "__setitem__") and isinstance(x.func.value, ast.Name) and x.func.value.id == LC:
+            val = ast.Tuple(elts=list(x.args[1:]) + [k.value for k in x.keywords], ctx=ast.Load()) if x.func.attr != "update" else ast.Tuple(elts=list(x.args) + [k.value for k in x.keywords], ctx=ast.Load())
+        if val is None:
+            continue
+        n += 1
+        foreign = sorted(set(y.id for y in ast.walk(val) if isinstance(y, ast.Name) and y.id not in own and y.id != LC))
+        ctx.check("C16.R8", not foreign, key(f, "local-conf-write|" + norm(x)[:50]), site(f, x),
+                  "serve() adds a value derived from %s to the [server:main] options, which are applied last: a default computed by the runner would override the gunicorn configuration file" % foreign,
+                  "only the user's own host/port are folded into the options")
+    ctx.floor("C16.R8", "writes into the server options", n, 1)
+    # order inside the runner's load_config (top-level statements)
+    body = lc.body
+    def idx(pred):
+        return [i for i, st in enumerate(body) if any(pred(y) for y in ast.walk(st))]
+    files = idx(lambda y: isinstance(y, ast.Call) and isinstance(y.func, ast.Attribute) and y.func.attr.startswith("load_config_from"))
+    derived = idx(lambda y: isinstance(y, ast.Call) and isinstance(y.func, ast.Attribute) and y.func.attr == "set" and tail(y.func.value) == "cfg" and y.args and isinstance(const(y.args[0], NO), str))
+    opts = idx(lambda y: isinstance(y, ast.For) and any(isinstance(z, ast.Name) and z.id == LC for z in ast.walk(y.iter)))
+    ctx.check("C16.R8", bool(files) and bool(opts), key(f, "runner-sources"), site(f, lc), "the runner's load_config does not load the configuration file and then apply the [server:main] options", "file, then options")
+    if files and opts:
+        ctx.check("C16.R8", all(d < min(files) for d in derived), key(f, "derived-before-file"), site(f, lc), "a default derived by the runner (cfg.set('<name>', ..)) is applied after the gunicorn configuration file: it overrides the file",
+                  "derived defaults before the file")
+        ctx.check("C16.R8", all(o > max(files) for o in opts), key(f, "options-after-file"), site(f, lc), "the [server:main] options are applied before the gunicorn configuration file: the file overrides the runner's command line",
+                  "options after the file")
 
 
 def r6(ctx):
